@@ -154,7 +154,14 @@ def corr_diag_sequences(ctx):
 
 
 def oracle_diag(ctx):
-    fs = getattr(ctx, 'diag_failures', [])
+    fs = list(getattr(ctx, 'diag_failures', []))
+    # results do not depend on which calls came before - across objects too (a module-level or default-argument store)
+    st = oracles.Stats()
+    try:
+        oracles.export_independence([x for o in ('r1', 'r2') for x in ctx.objects(o, count=2, nphi=15)], st)
+    except Exception:
+        pass
+    fs += st.failures
     return fs, dict(evaluations=len(fs) + 1, distinct=1, samples=[], clauses=['solution attribute changed by a diagnostic', 'result depends on the call history'])
 
 
